@@ -231,6 +231,12 @@ pub enum ConflictNode {
 }
 
 impl ConflictNode {
+    /// Verification hook: the node of the root (its id type is not exported).
+    #[cfg(resolvo_verif)]
+    pub fn verif_root() -> Self {
+        ConflictNode::Solvable(SolvableOrRootId::root())
+    }
+
     fn solvable_or_root(self) -> SolvableOrRootId {
         match self {
             ConflictNode::Solvable(solvable_id) => solvable_id,
@@ -658,6 +664,12 @@ pub struct DisplayUnsat<'i, I: Interner> {
 }
 
 impl<'i, I: Interner> DisplayUnsat<'i, I> {
+    /// Verification hook: renders a conflict graph that was not produced by a solve.
+    #[cfg(resolvo_verif)]
+    pub fn verif_new(graph: ConflictGraph, interner: &'i I) -> Self {
+        Self::new(graph, interner)
+    }
+
     pub(crate) fn new(graph: ConflictGraph, interner: &'i I) -> Self {
         let merged_candidates = graph.simplify(interner);
         let installable_set = graph.get_installable_set();
